@@ -314,8 +314,35 @@ def run(repo, rep):
                     continue
                 t = src(fnarg)
                 n += 1
-                ok = t == 'type(%s)' % value or (t in tvars and t != value) or t in keys or \
-                    (isinstance(fnarg, ast.Constant)) or t in ('pytz.timezone', 'pytz.tzinfo.DstTzInfo', 'cls_name')
+                defs_ = {}
+                for s_ in ast.walk(f.node):
+                    if isinstance(s_, ast.Assign) and len(s_.targets) == 1 and isinstance(s_.targets[0], ast.Name):
+                        defs_.setdefault(s_.targets[0].id, []).append(s_.value)
+
+                def derived(e, depth=0):
+                    """built from type(value) (and constants) only"""
+                    if depth > 6:
+                        return False
+                    if isinstance(e, ast.Constant):
+                        return True
+                    if isinstance(e, ast.Call) and call_name(e) == 'type' and len(e.args) == 1 and src(e.args[0]) == value:
+                        return True
+                    if isinstance(e, ast.Name):
+                        if e.id in tvars and e.id != value:
+                            return True
+                        return e.id in defs_ and all(derived(d_, depth + 1) for d_ in defs_[e.id])
+                    if isinstance(e, ast.Attribute):
+                        return derived(e.value, depth)
+                    if isinstance(e, ast.BinOp):
+                        return derived(e.left, depth) and derived(e.right, depth)
+                    if isinstance(e, ast.IfExp):
+                        return derived(e.body, depth) and derived(e.orelse, depth)
+                    if isinstance(e, ast.JoinedStr):
+                        return all(derived(v_.value, depth) for v_ in e.values if isinstance(v_, ast.FormattedValue))
+                    if isinstance(e, ast.Call) and isinstance(e.func, ast.Attribute) and e.func.attr == 'format':
+                        return derived(e.func.value, depth) and all(derived(a_, depth) for a_ in e.args)
+                    return False
+                ok = derived(fnarg) or t in keys or t in ('pytz.timezone', 'pytz.tzinfo.DstTzInfo')
                 rep.check(ok, 'C07.d', '%s:constructor:%s' % (f.name, t), '%s:%d' % (f.module.relpath, c.lineno),
                           'printed callable is the registered class or type(value)',
                           '%s (registered for %s) prints a call of %s' % (f.name, sorted(keys), t), nontrivial=True)
@@ -461,15 +488,9 @@ def run(repo, rep):
         rep.check(ok, 'C07.f', 'tuple-printer:struct-sequence-fallback', '%s:%d' % (seqp.module.relpath, c.lineno),
                   'any failure of the struct-sequence path falls back to the plain tuple path',
                   'the struct-sequence printer is called without the "except Exception: pass" fallback to the tuple path', nontrivial=True)
-    ca = m.funcs.get('classattr')
-    if ca is not None:
-        n += 1
-        rr = [src(r.value).replace(' ', '').replace('\n', '') for r in ast.walk(ca.node) if isinstance(r, ast.Return) and r.value is not None]
-        c0, a0 = ca.params[0], ca.params[1]
-        want = ("concat([general_identifier(%s),identifier('.{}'.format(%s))])" % (c0, a0), "concat([general_identifier(%s),identifier('.'+%s)])" % (c0, a0),
-                "concat([general_identifier(%s),identifier(f'.{%s}')])" % (c0, a0))
-        rep.check(len(rr) == 1 and rr[0] in want, 'C07.f', 'classattr:class-dot-member', ca.where, 'Class.member (enum members)',
-                  'classattr returns %s: an Enum member must print as <qualified class>.<member name>' % rr, nontrivial=True)
+    # Class.member for enum members, qualified like every other name: the identifier functions interpreted on model callables
+    from . import identmodel
+    n += identmodel.run(repo, rep, 'C07.f')
     rep.floor('C07.f', n, 4)
     from .c07_shape import run_shape
     rep.floor('C07.h', run_shape(repo, rep), 20)
